@@ -267,6 +267,13 @@ func c08SweepRules() []Rule {
 		// DOM1 reads "Combine(waitErrs) == nil" as "every replacement is Initialized". That holds only if the wait loop looked at
 		// every replacement: the Delete is reached either over the loop's exhausted edge or after an error was recorded (a
 		// `break` out of the loop on an already-initialized replacement leaves the rest unexamined with nil slots).
+		// an unrecoverable verdict makes Queue.Reconcile roll the command back (untaint, clear the condition, unmark). It may
+		// therefore only be produced for a pass that FAILED: either the result is already an error when the timeout wrapper
+		// runs, or a replacement has vanished (decided in the loop, before any candidate is deleted). A pass that deleted the
+		// candidates and is then turned into a "timeout" both deletes and rolls back (F12)
+		DOM{ID: "C08.DOM12", Fn: "(*disr.Queue).waitOrTerminate", Sink: `^store \^?&local<error> = disr\.NewUnrecoverableError\(`, Min: 2, Gates: gates(
+			G(`-^\^?&local<error> == nil$`, `+^apim/api/errors\.IsNotFound\(iface:\(cr/client\.Reader\)\.Get\(`),
+		), Note: "an unrecoverable (rollback) verdict only for a failed pass or a vanished replacement"},
 		DOM{ID: "C08.DOM1b", Fn: wot, Sink: ncDelete, Gates: gates(
 			G(`-^\(phi\(-1\|\(phi↺ \+ 1\)\) \+ 1\) < len\(\$2\.Replacements\)$`, `instr:^store makeslice<\[\]error>\[.*\] = \S+\(`),
 		), Note: "the wait loop leaves early only with an error recorded"},
